@@ -44,6 +44,162 @@ theorem create_keeps_rev (c : CId) (a : CreateArgs) (h : createOK a = true) :
   unfold createRecord
   exact h.2
 
+/-- `get` ignores everything of a state but its consumers -/
+theorem get_congr (s t : State) (h : s.consumers = t.consumers) (c : CId) : s.get c = t.get c := by
+  unfold State.get; rw [h]
+
+/-- rewriting the queued infraction parameters of a consumer leaves revision numbers alone -/
+theorem setq_rev (s : State) (c : CId) (q : Option Infr) :
+    ((s.set { s.get c with qinfr := q }).get c).initRev = (s.get c).initRev ∧
+    ((s.set { s.get c with qinfr := q }).get c).chainRev = (s.get c).chainRev := by
+  have := get_set_upd s c (fun x => { x with qinfr := q }) (fun _ => rfl)
+  rw [this]; exact ⟨rfl, rfl⟩
+
+theorem clearQueued_rev (s : State) (c : CId) :
+    ((clearQueued s c).get c).initRev = (s.get c).initRev ∧ ((clearQueued s c).get c).chainRev = (s.get c).chainRev := by
+  have h := get_congr (clearQueued s c) (s.set { s.get c with qinfr := none }) rfl c
+  rw [h]; exact setq_rev s c none
+
+theorem updateQueuedInfr_rev (s : State) (c : CId) (new : Infr) :
+    ((updateQueuedInfr s c new).get c).initRev = (s.get c).initRev ∧
+    ((updateQueuedInfr s c new).get c).chainRev = (s.get c).chainRev := by
+  unfold updateQueuedInfr
+  simp only []
+  split
+  · exact clearQueued_rev s c
+  · have h := get_congr ({ ((clearQueued s c).set { (clearQueued s c).get c with qinfr := some new }) with
+        infrQ := tqAppend (clearQueued s c).infrQ ((clearQueued s c).now + (clearQueued s c).unbonding) c })
+      ((clearQueued s c).set { (clearQueued s c).get c with qinfr := some new }) rfl c
+    rw [h]
+    have a := setq_rev (clearQueued s c) c (some new)
+    have b := clearQueued_rev s c
+    exact ⟨a.1.trans b.1, a.2.trans b.2⟩
+
+theorem updateMinPower_rev (s : State) (x y : Consumer) (o n : Nat) (h : updateMinPower s x o n = some y) :
+    y.initRev = x.initRev ∧ y.chainRev = x.chainRev ∧ y.id = x.id := by
+  unfold updateMinPower at h
+  split at h
+  · split at h
+    · simp only [] at h
+      split at h
+      · injection h with h; subst h; exact ⟨rfl, rfl, rfl⟩
+      · cases h
+    · injection h with h; subst h; exact ⟨rfl, rfl, rfl⟩
+  · injection h with h; subst h; exact ⟨rfl, rfl, rfl⟩
+
+/-- after every accepted MsgUpdateConsumer the stored initial-height revision equals the revision of
+    the (possibly new) chain id — the agreement the fall-back of a failed launch relies on (F3) -/
+theorem update_keeps_rev (s : State) (a : UpdateArgs) (r : State × Time) (h : updateCore s a = some r) :
+    (r.1.get a.c).initRev = (r.1.get a.c).chainRev := by
+  unfold updateCore at h
+  split at h
+  · cases h
+  · simp only [] at h
+    split at h
+    · cases h
+    · rename_i x1 h1
+      split at h
+      · cases h
+      · rename_i x2 h2
+        split at h
+        · cases h
+        · rename_i s3 x3 h3
+          split at h
+          · cases h
+          · rename_i x4 h4
+            injection h with h
+            subst h
+            -- ids
+            have id1 : x1.id = a.c := by
+              split at h1
+              · split at h1
+                · cases h1
+                · split at h1
+                  · injection h1 with h1; subst h1; exact get_id s a.c
+                  · cases h1
+              · injection h1 with h1; subst h1; exact get_id s a.c
+            have id2 : x2.id = a.c := by
+              split at h2
+              · injection h2 with h2; subst h2; exact id1
+              · split at h2
+                · cases h2
+                · injection h2 with h2; subst h2; exact id1
+            -- stage 3 establishes the agreement
+            have r3 : x3.initRev = x3.chainRev ∧ x3.id = a.c := by
+              split at h3
+              · split at h3
+                · cases h3
+                · rename_i hne
+                  injection h3 with h3
+                  injection h3 with hs hx; subst hx
+                  exact ⟨by simpa using hne, id2⟩
+              · rename_i ini
+                split at h3
+                · cases h3
+                · split at h3
+                  · cases h3
+                  · rename_i s' x' hr
+                    split at h3
+                    · cases h3
+                    · rename_i hne
+                      injection h3 with h3
+                      injection h3 with hs hx; subst hx
+                      have hx'id : x'.id = a.c := by
+                        split at hr
+                        · split at hr
+                          · cases hr
+                          · injection hr with hr; injection hr with _ hr; subst hr; exact id2
+                        · injection hr with hr; injection hr with _ hr; subst hr; exact id2
+                      exact ⟨by simpa using hne, hx'id⟩
+            have r4 : x4.initRev = x3.initRev ∧ x4.chainRev = x3.chainRev ∧ x4.id = x3.id := by
+              split at h4
+              · injection h4 with h4; subst h4; exact ⟨rfl, rfl, rfl⟩
+              · split at h4
+                · cases h4
+                · have := updateMinPower_rev _ _ _ _ _ h4
+                  exact this
+            have id4 : x4.id = a.c := r4.2.2.trans r3.2
+            have base : ((s3.set x4).get a.c) = x4 := get_set_id s3 x4 a.c id4
+            have goal4 : x4.initRev = x4.chainRev := by rw [r4.1, r4.2.1]; exact r3.1
+            simp only []
+            split
+            · rw [base]; exact goal4
+            · rename_i i _hi
+              split
+              · have := get_set_id (s3.set x4) { x4 with infr := some (mergeInfr (x4.infr.getD defaultInfr) i) } a.c id4
+                rw [this]; exact goal4
+              · have := updateQueuedInfr_rev (s3.set x4) a.c (mergeInfr (x4.infr.getD defaultInfr) i)
+                rw [this.1, this.2, base]; exact goal4
+
+theorem initializeAndPrepare_rev (s s' : State) (c : CId) (t : Time) (h : initializeAndPrepare s c t = some s') :
+    (s'.get c).initRev = (s.get c).initRev ∧ (s'.get c).chainRev = (s.get c).chainRev := by
+  unfold initializeAndPrepare at h
+  simp only [] at h
+  split at h
+  · injection h with h; subst h; exact ⟨rfl, rfl⟩
+  · split at h
+    · cases h
+    · rename_i q _hq
+      injection h with h; subst h
+      have hg := get_congr ({ (s.set { s.get c with phase := Phase.initialized }) with
+          spawnQ := tqAppend q (s.get c).spawn c }) (s.set { s.get c with phase := Phase.initialized }) rfl c
+      rw [hg]
+      have := get_set_upd s c (fun x => { x with phase := Phase.initialized }) (fun _ => rfl)
+      rw [this]; exact ⟨rfl, rfl⟩
+
+/-- … also through the whole message, including re-scheduling of the launch -/
+theorem updateConsumer_keeps_rev (s s' : State) (a : UpdateArgs) (h : updateConsumer s a = some s') :
+    (s'.get a.c).initRev = (s'.get a.c).chainRev := by
+  unfold updateConsumer at h
+  split at h
+  · cases h
+  · rename_i s1 t hc
+    split at h
+    · cases h
+    · have h1 := update_keeps_rev s a (s1, t) hc
+      have h2 := initializeAndPrepare_rev s1 s' a.c t h
+      rw [h2.1, h2.2]; exact h1
+
 /-- removal of stopped consumers and the infraction-parameter switch have no error path at all:
     they are total functions of the state -/
 theorem remove_and_infraction_total (s : State) :
